@@ -101,6 +101,7 @@ static int  _mod_load_static(int);
 static int  _mod_load_dynamic_modules(const char *, opt_t *);
 static int  _mod_load_dynamic(const char *, opt_t *);
 static int  _cmp_filenames(mod_t, char *);
+static int  _cmp_handles(mod_t, void *);
 static int  _is_loaded(char *filename);
 static bool _path_permissions_ok(const char *dir, uid_t pdsh_owner);
 static perm_error_t  _dir_permission_error(struct stat *, uid_t alt_uid);
@@ -832,7 +833,12 @@ _mod_load_dynamic(const char *fq_path, opt_t *pdsh_opts)
 
     mod->filename = Strdup(fq_path);
 
-    if (_is_loaded(mod->filename)) {
+    /*  The same object under a second name (symbolic or hard link) yields
+     *   the same handle and the same pdsh_module_info: skip it, destroying
+     *   it would clear type and name of the registered module.
+     */
+    if (_is_loaded(mod->filename)
+        || list_find_first(module_list, (ListFindF) _cmp_handles, mod->handle)) {
         /* Module already loaded. This is OK, no need for
          *   error message. (Could have already opened a .la and
          *   we are now opening the corresponding .so
@@ -944,6 +950,11 @@ _mod_load_dynamic_modules(const char *dir, opt_t *pdsh_opts)
     return 0;
 }
 
+
+static int _cmp_handles(mod_t mod, void *handle)
+{
+    return (mod->handle == handle);
+}
 
 static int _cmp_filenames(mod_t mod, char *filename)
 {
